@@ -1,1 +1,1212 @@
-//! Schema model (placeholder)
+//! The harness's own schema model: generator, two independent printers (JSON and
+//! Cedar schema syntax), request environments, conformant-world generator and a
+//! type-directed expression generator that guards optional accesses the
+//! documented way.
+
+use crate::gen::Kind;
+use crate::model::*;
+use crate::pools;
+use crate::render::is_plain_ident;
+use crate::rng::Rng;
+use serde_json::{json, Map, Value as J};
+use std::collections::{BTreeMap, BTreeSet};
+
+#[derive(Clone, Debug, PartialEq, Eq, PartialOrd, Ord, Hash)]
+pub enum GType {
+    Bool,
+    Long,
+    Str,
+    /// fully-qualified entity type
+    Ent(String),
+    Set(Box<GType>),
+    /// closed record
+    Rec(Vec<GAttr>),
+    /// "decimal" | "ipaddr" | "datetime" | "duration"
+    Ext(String),
+    /// fully-qualified common type name
+    Common(String),
+}
+
+#[derive(Clone, Debug, PartialEq, Eq, PartialOrd, Ord, Hash)]
+pub struct GAttr {
+    pub name: String,
+    pub ty: GType,
+    pub required: bool,
+}
+
+#[derive(Clone, Debug, PartialEq, Eq)]
+pub struct GEntityType {
+    /// fully-qualified
+    pub name: String,
+    pub member_of: Vec<String>,
+    pub attrs: Vec<GAttr>,
+    pub tags: Option<GType>,
+    pub enum_ids: Option<Vec<String>>,
+}
+
+#[derive(Clone, Debug, PartialEq, Eq)]
+pub struct GApplies {
+    pub principals: Vec<String>,
+    pub resources: Vec<String>,
+    pub context: Vec<GAttr>,
+}
+
+#[derive(Clone, Debug, PartialEq, Eq)]
+pub struct GAction {
+    /// namespace ("" = empty)
+    pub ns: String,
+    pub id: String,
+    /// direct parents (action groups)
+    pub member_of: Vec<Uid>,
+    pub applies: Option<GApplies>,
+}
+
+impl GAction {
+    pub fn uid(&self) -> Uid {
+        Uid::new(qualify(&self.ns, "Action"), &self.id)
+    }
+}
+
+#[derive(Clone, Debug, PartialEq, Eq)]
+pub struct GSchema {
+    pub namespaces: Vec<String>,
+    pub entity_types: Vec<GEntityType>,
+    pub actions: Vec<GAction>,
+    /// (fully-qualified name, definition)
+    pub common_types: Vec<(String, GType)>,
+}
+
+pub fn qualify(ns: impl AsRef<str>, base: impl AsRef<str>) -> String {
+    let (ns, base) = (ns.as_ref(), base.as_ref());
+    if ns.is_empty() {
+        base.to_string()
+    } else {
+        format!("{ns}::{base}")
+    }
+}
+
+pub fn split_name(fq: &str) -> (&str, &str) {
+    match fq.rfind("::") {
+        Some(i) => (&fq[..i], &fq[i + 2..]),
+        None => ("", fq),
+    }
+}
+
+#[derive(Clone, Debug, PartialEq, Eq)]
+pub struct Env {
+    pub principal_ty: String,
+    pub action: Uid,
+    pub resource_ty: String,
+    pub context: Vec<GAttr>,
+}
+
+impl GSchema {
+    pub fn entity_type(&self, name: &str) -> Option<&GEntityType> {
+        self.entity_types.iter().find(|e| e.name == name)
+    }
+    pub fn resolve<'a>(&'a self, t: &'a GType) -> &'a GType {
+        let mut cur = t;
+        for _ in 0..8 {
+            match cur {
+                GType::Common(n) => match self.common_types.iter().find(|(k, _)| k == n) {
+                    Some((_, d)) => cur = d,
+                    None => return cur,
+                },
+                _ => return cur,
+            }
+        }
+        cur
+    }
+    /// fully resolved copy (no Common left)
+    pub fn expand(&self, t: &GType) -> GType {
+        match self.resolve(t) {
+            GType::Set(e) => GType::Set(Box::new(self.expand(e))),
+            GType::Rec(attrs) => GType::Rec(attrs.iter().map(|a| GAttr { name: a.name.clone(), ty: self.expand(&a.ty), required: a.required }).collect()),
+            x => x.clone(),
+        }
+    }
+    pub fn envs(&self) -> Vec<Env> {
+        let mut out = vec![];
+        for a in &self.actions {
+            if let Some(ap) = &a.applies {
+                for p in &ap.principals {
+                    for r in &ap.resources {
+                        out.push(Env { principal_ty: p.clone(), action: a.uid(), resource_ty: r.clone(), context: ap.context.clone() });
+                    }
+                }
+            }
+        }
+        out
+    }
+    /// transitive memberOf between entity types: can an entity of type `t` have an ancestor of type `anc`?
+    pub fn type_can_descend(&self, t: &str, anc: &str) -> bool {
+        let mut seen = BTreeSet::new();
+        let mut stack = vec![t.to_string()];
+        while let Some(x) = stack.pop() {
+            if let Some(e) = self.entity_type(&x) {
+                for m in &e.member_of {
+                    if m == anc {
+                        return true;
+                    }
+                    if seen.insert(m.clone()) {
+                        stack.push(m.clone());
+                    }
+                }
+            }
+        }
+        false
+    }
+}
+
+// ===================================================================== generation
+
+pub struct SchemaOpts {
+    pub max_namespaces: usize,
+    pub hostile_names: bool,
+    pub enums: bool,
+    pub common_types: bool,
+    pub tags: bool,
+    pub ext_types: bool,
+}
+
+impl Default for SchemaOpts {
+    fn default() -> Self {
+        SchemaOpts { max_namespaces: 2, hostile_names: true, enums: true, common_types: true, tags: true, ext_types: true }
+    }
+}
+
+const ATTR_NAMES: [&str; 12] = ["x", "y", "z", "name", "owner", "n", "s", "flag", "if", "in", "a b", "principal"];
+const PLAIN_ATTR_NAMES: [&str; 8] = ["x", "y", "z", "name", "owner", "n", "s", "flag"];
+
+fn gen_type(rng: &mut Rng, depth: usize, ent_names: &[String], commons: &[String], o: &SchemaOpts) -> GType {
+    let leaf = |rng: &mut Rng| match rng.below(12) {
+        0..=2 => GType::Long,
+        3..=4 => GType::Str,
+        5..=6 => GType::Bool,
+        7..=9 if !ent_names.is_empty() => GType::Ent(rng.pick_clone(ent_names)),
+        10 if o.ext_types => GType::Ext(rng.pick(&["decimal", "ipaddr", "datetime", "duration"]).to_string()),
+        11 if !commons.is_empty() => GType::Common(rng.pick_clone(commons)),
+        _ => GType::Long,
+    };
+    if depth == 0 {
+        return leaf(rng);
+    }
+    match rng.below(8) {
+        0 | 1 => GType::Set(Box::new(gen_type(rng, depth - 1, ent_names, commons, o))),
+        2 => GType::Rec(gen_attrs(rng, depth - 1, ent_names, commons, o, 3)),
+        _ => leaf(rng),
+    }
+}
+
+fn gen_attrs(rng: &mut Rng, depth: usize, ent_names: &[String], commons: &[String], o: &SchemaOpts, max: usize) -> Vec<GAttr> {
+    let n = rng.below(max + 1);
+    let mut out: Vec<GAttr> = vec![];
+    for _ in 0..n {
+        let name = if o.hostile_names && rng.chance(1, 5) { rng.pick(&ATTR_NAMES).to_string() } else { rng.pick(&PLAIN_ATTR_NAMES).to_string() };
+        if out.iter().any(|a| a.name == name) {
+            continue;
+        }
+        out.push(GAttr { name, ty: gen_type(rng, depth, ent_names, commons, o), required: rng.chance(3, 5) });
+    }
+    out
+}
+
+pub fn gen_schema(rng: &mut Rng, o: &SchemaOpts) -> GSchema {
+    let mut namespaces: Vec<String> = vec![];
+    let n_ns = 1 + rng.below(o.max_namespaces.max(1));
+    let ns_pool = ["", "N", "N::M", "P"];
+    while namespaces.len() < n_ns {
+        let n = rng.pick(&ns_pool).to_string();
+        if !namespaces.contains(&n) {
+            namespaces.push(n);
+        }
+    }
+    // entity type names
+    let n_ent = 2 + rng.below(3);
+    let mut ent_names: Vec<String> = vec![];
+    // (a definition in a named namespace may not shadow a definition of the empty namespace)
+    let shadows = |names: &[String], cand: &str| {
+        let (cns, cbase) = split_name(cand);
+        names.iter().any(|n| {
+            let (ns, base) = split_name(n);
+            base == cbase && (ns.is_empty() != cns.is_empty())
+        })
+    };
+    let mut guard = 0;
+    while ent_names.len() < n_ent && guard < 100 {
+        guard += 1;
+        let n = qualify(rng.pick(&namespaces), rng.pick(&["A", "B", "C", "D"]));
+        if !ent_names.contains(&n) && !shadows(&ent_names, &n) {
+            ent_names.push(n);
+        }
+    }
+    let n_ent = ent_names.len();
+    // which are enums (never the first: keeps at least one ordinary type)
+    let mut enum_flags = vec![false; n_ent];
+    if o.enums {
+        for f in enum_flags.iter_mut().skip(1) {
+            *f = rng.chance(1, 6);
+        }
+    }
+    // common types
+    let mut common_types: Vec<(String, GType)> = vec![];
+    if o.common_types {
+        for i in 0..rng.below(3) {
+            let name = qualify(rng.pick(&namespaces), ["T1", "T2", "T3"][i]);
+            if shadows(&common_types.iter().map(|(n, _)| n.clone()).collect::<Vec<_>>(), &name) {
+                continue;
+            }
+            // definitions may refer to earlier common types only (no cycles)
+            let earlier: Vec<String> = common_types.iter().map(|(n, _)| n.clone()).collect();
+            let def = match rng.below(3) {
+                0 => GType::Rec(gen_attrs(rng, 1, &ent_names, &earlier, o, 3)),
+                _ => gen_type(rng, 1, &ent_names, &earlier, o),
+            };
+            common_types.push((name, def));
+        }
+    }
+    let commons: Vec<String> = common_types.iter().map(|(n, _)| n.clone()).collect();
+    let mut entity_types = vec![];
+    for (i, name) in ent_names.iter().enumerate() {
+        if enum_flags[i] {
+            let ids: Vec<String> = {
+                let mut v: Vec<String> = vec![];
+                for _ in 0..1 + rng.below(3) {
+                    let s = rng.pick(&["a", "b", "c", "a b", ""]).to_string();
+                    if !v.contains(&s) {
+                        v.push(s);
+                    }
+                }
+                v
+            };
+            entity_types.push(GEntityType { name: name.clone(), member_of: vec![], attrs: vec![], tags: None, enum_ids: Some(ids) });
+            continue;
+        }
+        let mut member_of = vec![];
+        for other in ent_names.iter().enumerate().filter(|(j, _)| !enum_flags[*j]).map(|(_, n)| n) {
+            if rng.chance(1, 3) {
+                member_of.push(other.clone());
+            }
+        }
+        let attrs = gen_attrs(rng, 2, &ent_names, &commons, o, 4);
+        let tags = if o.tags && rng.chance(1, 3) {
+            Some(match rng.below(5) {
+                0 => GType::Long,
+                1 => GType::Set(Box::new(GType::Str)),
+                2 => GType::Ent(rng.pick_clone(&ent_names)),
+                _ => GType::Str,
+            })
+        } else {
+            None
+        };
+        entity_types.push(GEntityType { name: name.clone(), member_of, attrs, tags, enum_ids: None });
+    }
+    // actions
+    let n_act = 2 + rng.below(3);
+    let act_ids = ["view", "edit", "delete", "a b", "group"];
+    let mut actions: Vec<GAction> = vec![];
+    for i in 0..n_act {
+        let ns = rng.pick(&namespaces).to_string();
+        let id = act_ids[i].to_string();
+        // parents among earlier actions (acyclic)
+        let mut member_of = vec![];
+        for a in &actions {
+            if rng.chance(1, 3) {
+                member_of.push(a.uid());
+            }
+        }
+        let applies = if i > 0 && rng.chance(1, 6) {
+            None
+        } else {
+            let pick_types = |rng: &mut Rng| {
+                let mut v: Vec<String> = vec![];
+                for _ in 0..1 + rng.below(2) {
+                    let t = rng.pick_clone(&ent_names);
+                    if !v.contains(&t) {
+                        v.push(t);
+                    }
+                }
+                v
+            };
+            Some(GApplies { principals: pick_types(rng), resources: pick_types(rng), context: gen_attrs(rng, 2, &ent_names, &commons, o, 3) })
+        };
+        actions.push(GAction { ns, id, member_of, applies });
+    }
+    GSchema { namespaces, entity_types, actions, common_types }
+}
+
+// ===================================================================== printer 1: JSON
+
+pub struct PrintStyle {
+    /// print references unqualified whenever the documented resolution rules make that unambiguous
+    pub unqualified: bool,
+    /// JSON: use {"type":"EntityOrCommon"} / bare {"type": name} forms instead of {"type":"Entity"}
+    pub loose_json: bool,
+}
+
+impl GSchema {
+    /// how to write a reference to entity/common type `fq` from inside namespace `ns`
+    fn ref_name(&self, fq: &str, ns: &str, st: &PrintStyle) -> String {
+        if !st.unqualified {
+            return fq.to_string();
+        }
+        let (tns, base) = split_name(fq);
+        let declared = |n: &str| self.entity_types.iter().any(|e| e.name == n) || self.common_types.iter().any(|(c, _)| c == n);
+        if tns == ns {
+            // the current namespace has priority
+            return base.to_string();
+        }
+        if tns.is_empty() && !declared(&qualify(ns, base)) {
+            // falls through to the empty namespace
+            return base.to_string();
+        }
+        fq.to_string()
+    }
+
+    fn type_json(&self, t: &GType, ns: &str, st: &PrintStyle) -> J {
+        match t {
+            GType::Bool => json!({"type": "Boolean"}),
+            GType::Long => json!({"type": "Long"}),
+            GType::Str => json!({"type": "String"}),
+            GType::Ent(n) => {
+                if st.loose_json {
+                    json!({"type": "EntityOrCommon", "name": self.ref_name(n, ns, st)})
+                } else {
+                    json!({"type": "Entity", "name": self.ref_name(n, ns, st)})
+                }
+            }
+            GType::Set(e) => json!({"type": "Set", "element": self.type_json(e, ns, st)}),
+            GType::Rec(attrs) => json!({"type": "Record", "attributes": self.attrs_json(attrs, ns, st)}),
+            GType::Ext(n) => json!({"type": "Extension", "name": n}),
+            GType::Common(n) => {
+                if st.loose_json {
+                    json!({"type": "EntityOrCommon", "name": self.ref_name(n, ns, st)})
+                } else {
+                    json!({"type": self.ref_name(n, ns, st)})
+                }
+            }
+        }
+    }
+
+    fn attrs_json(&self, attrs: &[GAttr], ns: &str, st: &PrintStyle) -> J {
+        let mut m = Map::new();
+        for a in attrs {
+            let mut t = self.type_json(&a.ty, ns, st);
+            if !a.required {
+                t["required"] = json!(false);
+            }
+            m.insert(a.name.clone(), t);
+        }
+        J::Object(m)
+    }
+
+    pub fn to_json(&self, st: &PrintStyle) -> J {
+        let mut top = Map::new();
+        for ns in &self.namespaces {
+            let mut ets = Map::new();
+            for e in self.entity_types.iter().filter(|e| split_name(&e.name).0 == ns) {
+                let base = split_name(&e.name).1;
+                if let Some(ids) = &e.enum_ids {
+                    ets.insert(base.to_string(), json!({"enum": ids}));
+                    continue;
+                }
+                let mut m = Map::new();
+                if !e.member_of.is_empty() {
+                    m.insert("memberOfTypes".into(), json!(e.member_of.iter().map(|t| self.ref_name(t, ns, st)).collect::<Vec<_>>()));
+                }
+                m.insert("shape".into(), json!({"type": "Record", "attributes": self.attrs_json(&e.attrs, ns, st)}));
+                if let Some(t) = &e.tags {
+                    m.insert("tags".into(), self.type_json(t, ns, st));
+                }
+                ets.insert(base.to_string(), J::Object(m));
+            }
+            let mut acts = Map::new();
+            for a in self.actions.iter().filter(|a| a.ns == *ns) {
+                let mut m = Map::new();
+                if !a.member_of.is_empty() {
+                    m.insert(
+                        "memberOf".into(),
+                        J::Array(
+                            a.member_of
+                                .iter()
+                                .map(|u| {
+                                    let (uns, _) = split_name(&u.ty);
+                                    if uns == ns && st.unqualified {
+                                        json!({"id": u.id})
+                                    } else {
+                                        json!({"id": u.id, "type": u.ty})
+                                    }
+                                })
+                                .collect(),
+                        ),
+                    );
+                }
+                if let Some(ap) = &a.applies {
+                    m.insert(
+                        "appliesTo".into(),
+                        json!({
+                            "principalTypes": ap.principals.iter().map(|t| self.ref_name(t, ns, st)).collect::<Vec<_>>(),
+                            "resourceTypes": ap.resources.iter().map(|t| self.ref_name(t, ns, st)).collect::<Vec<_>>(),
+                            "context": {"type": "Record", "attributes": self.attrs_json(&ap.context, ns, st)},
+                        }),
+                    );
+                }
+                acts.insert(a.id.clone(), J::Object(m));
+            }
+            let mut nsobj = Map::new();
+            let cts: Map<String, J> = self
+                .common_types
+                .iter()
+                .filter(|(n, _)| split_name(n).0 == ns)
+                .map(|(n, d)| (split_name(n).1.to_string(), self.type_json(d, ns, st)))
+                .collect();
+            if !cts.is_empty() {
+                nsobj.insert("commonTypes".into(), J::Object(cts));
+            }
+            nsobj.insert("entityTypes".into(), J::Object(ets));
+            nsobj.insert("actions".into(), J::Object(acts));
+            top.insert(ns.clone(), J::Object(nsobj));
+        }
+        J::Object(top)
+    }
+}
+
+// ===================================================================== printer 2: Cedar schema syntax
+
+fn cedar_str(s: &str) -> String {
+    let mut out = String::from("\"");
+    for c in s.chars() {
+        match c {
+            '"' => out.push_str("\\\""),
+            '\\' => out.push_str("\\\\"),
+            '\n' => out.push_str("\\n"),
+            '\0' => out.push_str("\\0"),
+            c => out.push(c),
+        }
+    }
+    out.push('"');
+    out
+}
+
+fn cedar_name(s: &str) -> String {
+    // attribute / action names: identifier when possible, else string
+    if is_plain_ident(s) {
+        s.to_string()
+    } else {
+        cedar_str(s)
+    }
+}
+
+impl GSchema {
+    fn type_cedar(&self, t: &GType, ns: &str, st: &PrintStyle) -> String {
+        match t {
+            GType::Bool => "Bool".into(),
+            GType::Long => "Long".into(),
+            GType::Str => "String".into(),
+            GType::Ent(n) | GType::Common(n) => self.ref_name(n, ns, st),
+            GType::Set(e) => format!("Set<{}>", self.type_cedar(e, ns, st)),
+            GType::Rec(attrs) => self.attrs_cedar(attrs, ns, st),
+            GType::Ext(n) => n.clone(),
+        }
+    }
+    fn attrs_cedar(&self, attrs: &[GAttr], ns: &str, st: &PrintStyle) -> String {
+        let parts: Vec<String> = attrs.iter().map(|a| format!("{}{}: {}", cedar_name(&a.name), if a.required { "" } else { "?" }, self.type_cedar(&a.ty, ns, st))).collect();
+        format!("{{ {} }}", parts.join(", "))
+    }
+
+    pub fn to_cedar(&self, st: &PrintStyle) -> String {
+        let mut out = String::new();
+        for ns in &self.namespaces {
+            let mut body = String::new();
+            for (n, d) in self.common_types.iter().filter(|(n, _)| split_name(n).0 == ns) {
+                body.push_str(&format!("  type {} = {};\n", split_name(n).1, self.type_cedar(d, ns, st)));
+            }
+            for e in self.entity_types.iter().filter(|e| split_name(&e.name).0 == ns) {
+                let base = split_name(&e.name).1;
+                if let Some(ids) = &e.enum_ids {
+                    body.push_str(&format!("  entity {} enum [{}];\n", base, ids.iter().map(|i| cedar_str(i)).collect::<Vec<_>>().join(", ")));
+                    continue;
+                }
+                let mut s = format!("  entity {}", base);
+                if !e.member_of.is_empty() {
+                    s.push_str(&format!(" in [{}]", e.member_of.iter().map(|t| self.ref_name(t, ns, st)).collect::<Vec<_>>().join(", ")));
+                }
+                if !e.attrs.is_empty() {
+                    s.push_str(&format!(" = {}", self.attrs_cedar(&e.attrs, ns, st)));
+                }
+                if let Some(t) = &e.tags {
+                    s.push_str(&format!(" tags {}", self.type_cedar(t, ns, st)));
+                }
+                s.push_str(";\n");
+                body.push_str(&s);
+            }
+            for a in self.actions.iter().filter(|a| a.ns == *ns) {
+                let mut s = format!("  action {}", cedar_name(&a.id));
+                if !a.member_of.is_empty() {
+                    let ps: Vec<String> = a
+                        .member_of
+                        .iter()
+                        .map(|u| {
+                            let (uns, _) = split_name(&u.ty);
+                            if uns == ns && st.unqualified {
+                                cedar_name(&u.id)
+                            } else {
+                                format!("{}::{}", u.ty, cedar_str(&u.id))
+                            }
+                        })
+                        .collect();
+                    s.push_str(&format!(" in [{}]", ps.join(", ")));
+                }
+                if let Some(ap) = &a.applies {
+                    s.push_str(&format!(
+                        " appliesTo {{ principal: [{}], resource: [{}], context: {} }}",
+                        ap.principals.iter().map(|t| self.ref_name(t, ns, st)).collect::<Vec<_>>().join(", "),
+                        ap.resources.iter().map(|t| self.ref_name(t, ns, st)).collect::<Vec<_>>().join(", "),
+                        self.attrs_cedar(&ap.context, ns, st)
+                    ));
+                }
+                s.push_str(";\n");
+                body.push_str(&s);
+            }
+            if ns.is_empty() {
+                out.push_str(&body);
+            } else {
+                out.push_str(&format!("namespace {} {{\n{}}}\n", ns, body));
+            }
+        }
+        out
+    }
+}
+
+// ===================================================================== conformant worlds
+
+pub struct WorldGen<'a> {
+    pub schema: &'a GSchema,
+    /// uid pool per entity type
+    pub pools: BTreeMap<String, Vec<Uid>>,
+}
+
+impl<'a> WorldGen<'a> {
+    pub fn new(rng: &mut Rng, schema: &'a GSchema) -> Self {
+        let mut pools_: BTreeMap<String, Vec<Uid>> = BTreeMap::new();
+        for e in &schema.entity_types {
+            let ids: Vec<String> = match &e.enum_ids {
+                Some(ids) => ids.clone(),
+                None => {
+                    let mut v: Vec<String> = vec!["a".into(), "b".into()];
+                    if rng.bool() {
+                        v.push(if rng.chance(1, 3) { rng.pick(&pools::IDS).to_string() } else { "c".into() });
+                    }
+                    v.dedup();
+                    v
+                }
+            };
+            let mut seen = BTreeSet::new();
+            pools_.insert(e.name.clone(), ids.into_iter().filter(|i| seen.insert(i.clone())).map(|i| Uid::new(&e.name, i)).collect());
+        }
+        WorldGen { schema, pools: pools_ }
+    }
+
+    pub fn value_of_type(&self, rng: &mut Rng, t: &GType, depth: usize) -> GValue {
+        match self.schema.resolve(t) {
+            GType::Bool => GValue::Bool(rng.bool()),
+            GType::Long => GValue::Long(pools::long(rng)),
+            GType::Str => GValue::Str(pools::string(rng)),
+            GType::Ent(n) => {
+                let pool = self.pools.get(n).cloned().unwrap_or_default();
+                let is_enum = self.schema.entity_type(n).map(|e| e.enum_ids.is_some()).unwrap_or(false);
+                if pool.is_empty() || (!is_enum && rng.chance(1, 10)) {
+                    GValue::Ent(Uid::new(n, "zz-dangling"))
+                } else {
+                    GValue::Ent(rng.pick_clone(&pool))
+                }
+            }
+            GType::Set(e) => {
+                let n = if depth == 0 { 0 } else { rng.below(4) };
+                GValue::set((0..n).map(|_| self.value_of_type(rng, e, depth.saturating_sub(1))).collect())
+            }
+            GType::Rec(attrs) => GValue::Rec(self.record_of(rng, attrs, depth)),
+            GType::Ext(n) => crate::gen::ext_value(
+                rng,
+                match n.as_str() {
+                    "decimal" => Kind::Decimal,
+                    "ipaddr" => Kind::Ip,
+                    "datetime" => Kind::Datetime,
+                    _ => Kind::Duration,
+                },
+            ),
+            GType::Common(_) => GValue::Bool(false), // unresolvable; not generated
+        }
+    }
+
+    pub fn record_of(&self, rng: &mut Rng, attrs: &[GAttr], depth: usize) -> BTreeMap<String, GValue> {
+        let mut m = BTreeMap::new();
+        for a in attrs {
+            if a.required || rng.bool() {
+                m.insert(a.name.clone(), self.value_of_type(rng, &a.ty, depth.saturating_sub(1).max(1)));
+            }
+        }
+        m
+    }
+
+    /// A world conforming to the schema for request environment `env`.
+    /// Action entities are included (direct parents = declared memberOf, no attributes).
+    pub fn world(&self, rng: &mut Rng, env: &Env) -> GWorld {
+        let mut order: Vec<Uid> = self.pools.values().flatten().cloned().collect();
+        rng.shuffle(&mut order);
+        let pos: BTreeMap<Uid, usize> = order.iter().cloned().enumerate().map(|(i, u)| (u, i)).collect();
+        let mut entities: BTreeMap<Uid, GEntity> = BTreeMap::new();
+        for u in &order {
+            if rng.chance(1, 5) {
+                continue; // absent
+            }
+            let et = match self.schema.entity_type(&u.ty) {
+                Some(e) => e,
+                None => continue,
+            };
+            let mut e = GEntity::default();
+            if et.enum_ids.is_none() {
+                for m in &et.member_of {
+                    for cand in self.pools.get(m).into_iter().flatten() {
+                        // only "later" uids => acyclic
+                        if pos[cand] > pos[u] && rng.chance(2, 5) {
+                            e.parents.insert(cand.clone());
+                        }
+                    }
+                }
+                e.attrs = self.record_of(rng, &et.attrs, 3);
+                if let Some(tt) = &et.tags {
+                    for _ in 0..rng.below(3) {
+                        e.tags.insert(rng.pick(&["k", "t", ""]).to_string(), self.value_of_type(rng, tt, 2));
+                    }
+                }
+            }
+            entities.insert(u.clone(), e);
+        }
+        for a in &self.schema.actions {
+            let mut e = GEntity::default();
+            e.parents = a.member_of.iter().cloned().collect();
+            entities.insert(a.uid(), e);
+        }
+        let pick = |rng: &mut Rng, ty: &str| {
+            let pool = self.pools.get(ty).cloned().unwrap_or_default();
+            let is_enum = self.schema.entity_type(ty).map(|e| e.enum_ids.is_some()).unwrap_or(false);
+            if pool.is_empty() || (!is_enum && rng.chance(1, 12)) {
+                Uid::new(ty, "zz-unknown")
+            } else {
+                rng.pick_clone(&pool)
+            }
+        };
+        GWorld {
+            principal: pick(rng, &env.principal_ty),
+            action: env.action.clone(),
+            resource: pick(rng, &env.resource_ty),
+            context: self.record_of(rng, &env.context, 3),
+            entities,
+        }
+    }
+}
+
+/// Does `v` conform to `t` (harness-side check used for sanity and by mutators)?
+pub fn conforms(s: &GSchema, v: &GValue, t: &GType) -> bool {
+    match (s.resolve(t), v) {
+        (GType::Bool, GValue::Bool(_)) | (GType::Long, GValue::Long(_)) | (GType::Str, GValue::Str(_)) => true,
+        (GType::Ent(n), GValue::Ent(u)) => {
+            &u.ty == n
+                && match s.entity_type(n).and_then(|e| e.enum_ids.as_ref()) {
+                    Some(ids) => ids.contains(&u.id),
+                    None => true,
+                }
+        }
+        (GType::Set(e), GValue::Set(xs)) => xs.iter().all(|x| conforms(s, x, e)),
+        (GType::Rec(attrs), GValue::Rec(m)) => {
+            attrs.iter().all(|a| match m.get(&a.name) {
+                Some(x) => conforms(s, x, &a.ty),
+                None => !a.required,
+            }) && m.keys().all(|k| attrs.iter().any(|a| &a.name == k))
+        }
+        (GType::Ext(n), GValue::Ext(x)) => matches!(
+            (n.as_str(), x),
+            ("decimal", ExtVal::Decimal(_)) | ("ipaddr", ExtVal::Ip { .. }) | ("datetime", ExtVal::Datetime(_)) | ("duration", ExtVal::Duration(_))
+        ),
+        _ => false,
+    }
+}
+
+// ===================================================================== type-directed expressions
+
+#[derive(Clone, Debug)]
+pub struct Path {
+    pub expr: GExpr,
+    pub ty: GType,
+    /// guards (outermost first) that make the access safe
+    pub guards: Vec<GExpr>,
+}
+
+pub struct TypedGen<'a> {
+    pub rng: &'a mut Rng,
+    pub schema: &'a GSchema,
+    pub env: &'a Env,
+    pub pools: &'a BTreeMap<String, Vec<Uid>>,
+    pub paths: Vec<Path>,
+    /// percent chance to omit a required guard (produces programs expected to be rejected)
+    pub omit_guard: u32,
+    /// percent chance to use an operand of the wrong type
+    pub mistype: u32,
+    /// how many guards were omitted / operands mistyped in what was generated so far
+    pub faults: u32,
+    pub allow_tags: bool,
+    pub allow_ext: bool,
+}
+
+pub const TAG_KEYS: [&str; 2] = ["k", "t"];
+
+impl<'a> TypedGen<'a> {
+    pub fn new(rng: &'a mut Rng, schema: &'a GSchema, env: &'a Env, pools_: &'a BTreeMap<String, Vec<Uid>>) -> Self {
+        let mut g = TypedGen { rng, schema, env, pools: pools_, paths: vec![], omit_guard: 0, mistype: 0, faults: 0, allow_tags: true, allow_ext: true };
+        g.paths = g.enumerate_paths(3);
+        g
+    }
+
+    fn enumerate_paths(&self, max_len: usize) -> Vec<Path> {
+        let mut out: Vec<Path> = vec![
+            Path { expr: GExpr::Var(Var::Principal), ty: GType::Ent(self.env.principal_ty.clone()), guards: vec![] },
+            Path { expr: GExpr::Var(Var::Resource), ty: GType::Ent(self.env.resource_ty.clone()), guards: vec![] },
+            Path { expr: GExpr::Var(Var::Context), ty: GType::Rec(self.env.context.clone()), guards: vec![] },
+        ];
+        let mut frontier = out.clone();
+        for _ in 0..max_len {
+            let mut next = vec![];
+            for p in &frontier {
+                let attrs: Vec<GAttr> = match self.schema.resolve(&p.ty) {
+                    GType::Ent(n) => {
+                        let et = self.schema.entity_type(n);
+                        if let (Some(et), true) = (et, self.allow_tags) {
+                            if let Some(tt) = &et.tags {
+                                for k in TAG_KEYS {
+                                    let mut guards = p.guards.clone();
+                                    guards.push(GExpr::bin(BinOp::HasTag, p.expr.clone(), GExpr::Str(k.into())));
+                                    next.push(Path { expr: GExpr::bin(BinOp::GetTag, p.expr.clone(), GExpr::Str(k.into())), ty: tt.clone(), guards });
+                                }
+                            }
+                        }
+                        et.map(|e| e.attrs.clone()).unwrap_or_default()
+                    }
+                    GType::Rec(attrs) => attrs.clone(),
+                    _ => vec![],
+                };
+                for a in attrs {
+                    let mut guards = p.guards.clone();
+                    if !a.required {
+                        guards.push(GExpr::Has(p.expr.clone().b(), vec![a.name.clone()]));
+                    }
+                    next.push(Path { expr: GExpr::Attr(p.expr.clone().b(), a.name.clone()), ty: a.ty.clone(), guards });
+                }
+            }
+            out.extend(next.iter().cloned());
+            frontier = next;
+            if out.len() > 400 {
+                break;
+            }
+        }
+        out
+    }
+
+    fn same_type(&self, a: &GType, b: &GType) -> bool {
+        self.schema.expand(a) == self.schema.expand(b)
+    }
+
+    fn path_of(&mut self, t: &GType, guards: &mut Vec<GExpr>) -> Option<GExpr> {
+        let cands: Vec<usize> = self.paths.iter().enumerate().filter(|(_, p)| self.same_type(&p.ty, t)).map(|(i, _)| i).collect();
+        if cands.is_empty() {
+            return None;
+        }
+        let p = self.paths[*self.rng.pick(&cands)].clone();
+        for g in p.guards {
+            if self.omit_guard > 0 && self.rng.chance(self.omit_guard, 100) {
+                self.faults += 1;
+                continue;
+            }
+            if !guards.contains(&g) {
+                guards.push(g);
+            }
+        }
+        Some(p.expr)
+    }
+
+    fn wrap(&mut self, guards: Vec<GExpr>, body: GExpr) -> GExpr {
+        // g1 && (g2 && body): guards are to the left of everything that needs them
+        let mut e = body;
+        for g in guards.into_iter().rev() {
+            e = GExpr::and(g, e);
+        }
+        e
+    }
+
+    fn uid_of_type(&mut self, ty: &str) -> Uid {
+        let pool = self.pools.get(ty).cloned().unwrap_or_default();
+        let is_enum = self.schema.entity_type(ty).map(|e| e.enum_ids.is_some()).unwrap_or(false);
+        if pool.is_empty() || (!is_enum && self.rng.chance(1, 8)) {
+            Uid::new(ty, "zz-lit")
+        } else {
+            self.rng.pick_clone(&pool)
+        }
+    }
+
+    fn ext_literal(&mut self, n: &str) -> GExpr {
+        match n {
+            "decimal" => GExpr::call("decimal", vec![GExpr::Str(self.rng.pick(&["0.0", "1.5", "-2.25", "10.0001", "922337203685477.5807"]).to_string())]),
+            "ipaddr" => GExpr::call("ip", vec![GExpr::Str(self.rng.pick(&["127.0.0.1", "10.0.0.0/8", "::1", "ff00::/8", "192.168.1.7/24"]).to_string())]),
+            "datetime" => GExpr::call("datetime", vec![GExpr::Str(self.rng.pick(&["1970-01-01", "2024-02-29T12:00:00Z", "1969-12-31T23:59:59.999Z", "9999-12-31"]).to_string())]),
+            _ => GExpr::call("duration", vec![GExpr::Str(self.rng.pick(&["0ms", "1d", "-1h", "1d2h3m4s5ms", "9223372036854775807ms"]).to_string())]),
+        }
+    }
+
+    /// expression of (exactly) type `t`; guards needed by optional accesses are pushed to `guards`
+    pub fn of_type(&mut self, t: &GType, depth: usize, guards: &mut Vec<GExpr>) -> GExpr {
+        let t = self.schema.resolve(t).clone();
+        if self.mistype > 0 && self.rng.chance(self.mistype, 100) {
+            self.faults += 1;
+            let wrong = match t {
+                GType::Long => GType::Str,
+                GType::Str => GType::Long,
+                GType::Bool => GType::Long,
+                _ => GType::Bool,
+            };
+            return self.of_type(&wrong, 0, guards);
+        }
+        if matches!(t, GType::Bool) {
+            return self.bool_expr(depth);
+        }
+        // access path
+        if self.rng.chance(if depth == 0 { 3 } else { 2 }, 5) {
+            if let Some(e) = self.path_of(&t, guards) {
+                return e;
+            }
+        }
+        if depth > 0 && self.rng.chance(1, 8) {
+            // if-then-else with both branches of exactly this type
+            let c = self.bool_expr(depth - 1);
+            let a = self.of_type(&t, depth - 1, guards);
+            let b = self.of_type(&t, depth - 1, guards);
+            return GExpr::ite(c, a, b);
+        }
+        match &t {
+            GType::Long => {
+                if depth > 0 && self.rng.chance(1, 3) {
+                    let a = self.of_type(&GType::Long, depth - 1, guards);
+                    match self.rng.below(4) {
+                        0 => GExpr::Neg(a.b()),
+                        1 => GExpr::bin(BinOp::Mul, a, GExpr::Long(self.rng.range(-3, 3))),
+                        2 => {
+                            let b = self.of_type(&GType::Long, depth - 1, guards);
+                            GExpr::bin(BinOp::Sub, a, b)
+                        }
+                        _ => {
+                            let b = self.of_type(&GType::Long, depth - 1, guards);
+                            GExpr::bin(BinOp::Add, a, b)
+                        }
+                    }
+                } else {
+                    GExpr::Long(pools::long(self.rng))
+                }
+            }
+            GType::Str => GExpr::Str(pools::string(self.rng)),
+            GType::Ent(n) => GExpr::Ent(self.uid_of_type(n)),
+            GType::Set(e) => {
+                // strict validation refuses the empty set literal: at least one element
+                let n = 1 + self.rng.below(3);
+                let mut xs = vec![];
+                for _ in 0..n {
+                    xs.push(self.of_type(e, depth.saturating_sub(1), guards));
+                }
+                GExpr::Set(xs)
+            }
+            GType::Rec(attrs) => {
+                // a literal has exactly the required-attribute record type, so only used when no attribute is optional
+                if attrs.iter().all(|a| a.required) {
+                    let mut fs = vec![];
+                    for a in attrs {
+                        fs.push((a.name.clone(), self.of_type(&a.ty, depth.saturating_sub(1), guards)));
+                    }
+                    GExpr::Rec(fs)
+                } else {
+                    match self.path_of(&t, guards) {
+                        Some(e) => e,
+                        None => {
+                            // no way to build exactly this type (a literal has all-required attributes):
+                            // the literal below has a different record type, so this program is outside the
+                            // fault-free family
+                            self.faults += 1;
+                            let mut fs = vec![];
+                            for a in attrs {
+                                fs.push((a.name.clone(), self.of_type(&a.ty, depth.saturating_sub(1), guards)));
+                            }
+                            GExpr::Rec(fs)
+                        }
+                    }
+                }
+            }
+            GType::Ext(n) => {
+                if depth > 0 && n == "datetime" && self.rng.chance(1, 4) {
+                    let a = self.of_type(&t, depth - 1, guards);
+                    if self.rng.bool() {
+                        GExpr::call("toDate", vec![a])
+                    } else {
+                        let d = self.of_type(&GType::Ext("duration".into()), depth - 1, guards);
+                        GExpr::call("offset", vec![a, d])
+                    }
+                } else if depth > 0 && n == "duration" && self.rng.chance(1, 4) {
+                    let a = self.of_type(&GType::Ext("datetime".into()), depth - 1, guards);
+                    if self.rng.bool() {
+                        GExpr::call("toTime", vec![a])
+                    } else {
+                        let b = self.of_type(&GType::Ext("datetime".into()), depth - 1, guards);
+                        GExpr::call("durationSince", vec![a, b])
+                    }
+                } else {
+                    self.ext_literal(n)
+                }
+            }
+            GType::Bool | GType::Common(_) => GExpr::Bool(true),
+        }
+    }
+
+    fn some_entity_type(&mut self) -> String {
+        let names: Vec<String> = self.schema.entity_types.iter().map(|e| e.name.clone()).collect();
+        self.rng.pick_clone(&names)
+    }
+
+    fn some_path_type(&mut self, pred: impl Fn(&GType) -> bool) -> Option<GType> {
+        let ts: Vec<GType> = self.paths.iter().map(|p| self.schema.expand(&p.ty)).filter(|t| pred(t)).collect();
+        if ts.is_empty() {
+            None
+        } else {
+            Some(self.rng.pick_clone(&ts))
+        }
+    }
+
+    /// boolean expression; wraps itself in the guards its non-boolean operands need
+    pub fn bool_expr(&mut self, depth: usize) -> GExpr {
+        let mut guards: Vec<GExpr> = vec![];
+        let body = self.bool_body(depth, &mut guards);
+        self.wrap(guards, body)
+    }
+
+    fn bool_body(&mut self, depth: usize, guards: &mut Vec<GExpr>) -> GExpr {
+        if depth == 0 {
+            if let Some(e) = self.path_of(&GType::Bool, guards) {
+                return e;
+            }
+            return GExpr::Bool(self.rng.bool());
+        }
+        let d = depth - 1;
+        match self.rng.below(20) {
+            0 => GExpr::Not(self.bool_expr(d).b()),
+            1 | 2 => {
+                let a = self.bool_expr(d);
+                let b = self.bool_expr(d);
+                GExpr::and(a, b)
+            }
+            3 => {
+                let a = self.bool_expr(d);
+                let b = self.bool_expr(d);
+                GExpr::or(a, b)
+            }
+            4 => {
+                let c = self.bool_expr(d);
+                let a = self.bool_expr(d);
+                let b = self.bool_expr(d);
+                GExpr::ite(c, a, b)
+            }
+            5 | 6 => {
+                let op = *self.rng.pick(&[BinOp::Lt, BinOp::Le, BinOp::Gt, BinOp::Ge]);
+                let t = if self.allow_ext && self.rng.chance(1, 5) { GType::Ext(self.rng.pick(&["datetime", "duration"]).to_string()) } else { GType::Long };
+                let a = self.of_type(&t, d, guards);
+                let b = self.of_type(&t, d, guards);
+                GExpr::bin(op, a, b)
+            }
+            7 | 8 => {
+                // equality on two operands of exactly the same type
+                let t = match self.some_path_type(|t| !matches!(t, GType::Bool)) {
+                    Some(t) if self.rng.chance(3, 4) => t,
+                    _ => self.rng.pick_clone(&[GType::Long, GType::Str]),
+                };
+                let op = if self.rng.chance(3, 4) { BinOp::Eq } else { BinOp::Neq };
+                let a = self.of_type(&t, d, guards);
+                let b = self.of_type(&t, d, guards);
+                GExpr::bin(op, a, b)
+            }
+            9 | 10 => {
+                // membership
+                let lt = self.some_path_type(|t| matches!(t, GType::Ent(_))).unwrap_or(GType::Ent(self.env.principal_ty.clone()));
+                let a = self.of_type(&lt, d, guards);
+                let rt = GType::Ent(self.some_entity_type());
+                let b = if self.rng.bool() {
+                    self.of_type(&rt, d, guards)
+                } else {
+                    self.of_type(&GType::Set(Box::new(rt)), d, guards)
+                };
+                GExpr::bin(BinOp::In, a, b)
+            }
+            11 => {
+                // has on a declared attribute of an entity / record path
+                let cands: Vec<(GExpr, Vec<GExpr>, String)> = self
+                    .paths
+                    .iter()
+                    .filter_map(|p| {
+                        let attrs: Vec<GAttr> = match self.schema.resolve(&p.ty) {
+                            GType::Ent(n) => self.schema.entity_type(n).map(|e| e.attrs.clone()).unwrap_or_default(),
+                            GType::Rec(a) => a.clone(),
+                            _ => vec![],
+                        };
+                        if attrs.is_empty() {
+                            None
+                        } else {
+                            Some((p.expr.clone(), p.guards.clone(), attrs[0].name.clone(), attrs))
+                        }
+                    })
+                    .flat_map(|(e, g, _, attrs)| attrs.into_iter().map(move |a| (e.clone(), g.clone(), a.name)))
+                    .collect();
+                if cands.is_empty() {
+                    return GExpr::Bool(true);
+                }
+                let (e, g, a) = self.rng.pick_clone(&cands);
+                for x in g {
+                    if !guards.contains(&x) {
+                        guards.push(x);
+                    }
+                }
+                GExpr::Has(e.b(), vec![a])
+            }
+            12 if self.allow_tags => {
+                let cands: Vec<Path> = self
+                    .paths
+                    .iter()
+                    .filter(|p| match self.schema.resolve(&p.ty) {
+                        GType::Ent(n) => self.schema.entity_type(n).map(|e| e.tags.is_some()).unwrap_or(false),
+                        _ => false,
+                    })
+                    .cloned()
+                    .collect();
+                if cands.is_empty() {
+                    return GExpr::Bool(false);
+                }
+                let p = self.rng.pick_clone(&cands);
+                for x in p.guards {
+                    if !guards.contains(&x) {
+                        guards.push(x);
+                    }
+                }
+                GExpr::bin(BinOp::HasTag, p.expr, GExpr::Str(self.rng.pick(&TAG_KEYS).to_string()))
+            }
+            13 | 14 => {
+                // set operations
+                let st = match self.some_path_type(|t| matches!(t, GType::Set(_))) {
+                    Some(t) => t,
+                    None => GType::Set(Box::new(GType::Long)),
+                };
+                let elem = match &st {
+                    GType::Set(e) => (**e).clone(),
+                    _ => GType::Long,
+                };
+                let s = self.of_type(&st, d, guards);
+                match self.rng.below(4) {
+                    0 => GExpr::IsEmpty(s.b()),
+                    1 | 2 => {
+                        let x = self.of_type(&elem, d, guards);
+                        GExpr::bin(BinOp::Contains, s, x)
+                    }
+                    _ => {
+                        let t = self.of_type(&st, d, guards);
+                        GExpr::bin(if self.rng.bool() { BinOp::ContainsAll } else { BinOp::ContainsAny }, s, t)
+                    }
+                }
+            }
+            15 => {
+                let s = self.of_type(&GType::Str, d, guards);
+                GExpr::Like(s.b(), pools::pattern(self.rng))
+            }
+            16 => {
+                let lt = self.some_path_type(|t| matches!(t, GType::Ent(_))).unwrap_or(GType::Ent(self.env.resource_ty.clone()));
+                let a = self.of_type(&lt, d, guards);
+                let ty = if self.rng.bool() {
+                    match &lt {
+                        GType::Ent(n) => n.clone(),
+                        _ => self.some_entity_type(),
+                    }
+                } else {
+                    self.some_entity_type()
+                };
+                let inn = if self.rng.chance(1, 3) {
+                    let rt = GType::Ent(self.some_entity_type());
+                    Some(self.of_type(&rt, d, guards).b())
+                } else {
+                    None
+                };
+                GExpr::Is(a.b(), ty, inn)
+            }
+            17 if self.allow_ext => {
+                let a = self.of_type(&GType::Ext("decimal".into()), d, guards);
+                let b = self.of_type(&GType::Ext("decimal".into()), d, guards);
+                GExpr::call(self.rng.pick(&["lessThan", "lessThanOrEqual", "greaterThan", "greaterThanOrEqual"]), vec![a, b])
+            }
+            18 if self.allow_ext => {
+                let a = self.of_type(&GType::Ext("ipaddr".into()), d, guards);
+                if self.rng.bool() {
+                    GExpr::call(self.rng.pick(&["isIpv4", "isIpv6", "isLoopback", "isMulticast"]), vec![a])
+                } else {
+                    let b = self.of_type(&GType::Ext("ipaddr".into()), d, guards);
+                    GExpr::call("isInRange", vec![a, b])
+                }
+            }
+            _ => {
+                if let Some(e) = self.path_of(&GType::Bool, guards) {
+                    e
+                } else {
+                    // action / scope-like tests
+                    match self.rng.below(3) {
+                        0 => GExpr::eq(GExpr::Var(Var::Action), GExpr::Ent(self.env.action.clone())),
+                        1 => {
+                            let acts: Vec<Uid> = self.schema.actions.iter().map(|a| a.uid()).collect();
+                            GExpr::bin(BinOp::In, GExpr::Var(Var::Action), GExpr::Ent(self.rng.pick_clone(&acts)))
+                        }
+                        _ => GExpr::Bool(self.rng.bool()),
+                    }
+                }
+            }
+        }
+    }
+}
+
+/// A policy whose scope mentions only declared types/actions and whose conditions are type-directed.
+pub fn typed_policy(g: &mut TypedGen, depth: usize) -> GPolicy {
+    let effect = if g.rng.chance(3, 4) { Effect::Permit } else { Effect::Forbid };
+    // the scope pins the request environment (principal type, action, resource type), so the
+    // conditions -- generated for `env` -- are only ever typechecked against `env`
+    let pr = |g: &mut TypedGen, ty: String| -> ScopePR {
+        match g.rng.below(6) {
+            0 => ScopePR::Eq(EntOrSlot::Ent(g.uid_of_type(&ty))),
+            1 => {
+                // `is T in X` only makes sense when entities of type T can be descendants of X's type
+                let cands: Vec<String> = g.schema.entity_types.iter().map(|e| e.name.clone()).filter(|t| *t == ty || g.schema.type_can_descend(&ty, t)).collect();
+                if cands.is_empty() {
+                    ScopePR::Is(ty)
+                } else {
+                    let t = g.rng.pick_clone(&cands);
+                    ScopePR::IsIn(ty, EntOrSlot::Ent(g.uid_of_type(&t)))
+                }
+            }
+            _ => ScopePR::Is(ty),
+        }
+    };
+    let principal = pr(g, g.env.principal_ty.clone());
+    let resource = pr(g, g.env.resource_ty.clone());
+    // (`action in [..]` would also match the actions that are members of the listed ones, i.e. other environments)
+    let action = ScopeA::Eq(g.env.action.clone());
+    let mut conds = vec![];
+    for _ in 0..1 + g.rng.below(2) {
+        conds.push((g.rng.chance(3, 4), g.bool_expr(depth)));
+    }
+    GPolicy { annotations: vec![], effect, principal, action, resource, conds }
+}
